@@ -1,0 +1,15 @@
+//go:build verif
+// +build verif
+
+package store
+
+// Hook of the /verif election-integrity check (C10).  Compiled only with -tags verif.
+
+// VerifSetMaxCandidates sets the size limit of the published top-candidate list (max_candidate_count, 20 in
+// production) and returns the previous value, so that "more candidates than list slots" is reachable with a
+// handful of accounts.  Process-global, like the variable itself; set it before the database is opened.
+func VerifSetMaxCandidates(n int) int {
+	old := max_candidate_count
+	max_candidate_count = n
+	return old
+}
